@@ -245,7 +245,8 @@ class Report:
         return True
 
     def finish(self):
-        os.makedirs(os.path.join(VERIF, 'evidence'), exist_ok=True)
+        evdir = os.environ.get('VERIF_EVIDENCE_DIR') or os.path.join(VERIF, 'evidence')
+        os.makedirs(evdir, exist_ok=True)
         os.makedirs(os.path.join(VERIF, 'replays'), exist_ok=True)
         lines = []
         for kf in self.known_hits:
@@ -270,7 +271,7 @@ class Report:
               'coverage': self.cov, 'assumptions': self.assumptions,
               'wall_s': round(time.time() - self.t0, 2), 'violations': len(seen),
               'known_findings_hit': self.known_counts, 'violation_keys': self.all_keys, 'notes': self.notes}
-        with open(os.path.join(VERIF, 'evidence', self.prop + '.json'), 'w') as f:
+        with open(os.path.join(evdir, self.prop + '.json'), 'w') as f:
             json.dump(ev, f, indent=1, default=str)
         for l in lines:
             print(l)
